@@ -5,6 +5,9 @@ CONSTANTS
   Lens = {}
   NW = @NW@
   MaxRec = 1000000
+  MaxFail = 1000000
+  FmtMax = 1000000
+  WLimit = 1000000
   WMode = "atomic"
   RMode = "full"
 CONSTRAINT HW
